@@ -116,7 +116,9 @@ def handle (args : List String) : Option String :=
     let t := unhexS s
     let p := toOCIPlatform t
     let out := joinS "|" [hexS (parseArch t), hexS (toAPK t), hexS p.arch, hexS p.variant]
-    some <| triple out out "-"
+    let q := Spec.platformOf t
+    let spec := joinS "|" [hexS (Spec.canonArch t), hexS (Spec.toAPK t), hexS q.arch, hexS q.variant]
+    some <| triple out spec (if out = spec then "-" else "unlisted")
   | ["oci.offset", pos, size] =>
     let p := pos.toNat!; let s := size.toNat!
     let impl := toString (Impl.newOffset p s)
